@@ -111,6 +111,14 @@ Next == /\ Len(hist) < MaxHist
 
 Spec == Init /\ [][Next]_vars
 
+\* deep behaviours: one scope and one registry growing without ever being reset (suffix / alias index >= 10)
+NextDeep == /\ Len(hist) < MaxHist
+            /\ \/ \E p \in Prefixes : AllocateName(p)
+               \/ \E pk \in Pkgs : pk.path \notin DOMAIN imp /\ AddImport(pk)
+               \/ (Len(hist) % 7 = 6 /\ ListImports)
+               \/ (Len(hist) % 5 = 4 /\ \E n \in AddNames : NameExists(n))
+DeepSpec == Init /\ [][NextDeep]_vars
+
 -----------------------------------------------------------------------------
 (* Contract (property C15) *)
 
